@@ -333,6 +333,7 @@ def _summarize(prog, qual, own=True):
         pre = cform(o.conds)
         if o.kind == "error":
             S.errors.append(pre)
+            S.raw.append(("error", "", (), pre))
             continue
         if o.kind in ("return", "fallthrough"):
             v = cn(o.value, o.conds) if o.kind == "return" else Rat.sym("None")
